@@ -247,7 +247,8 @@ func c02Body(t *testing.T, s *sim.Scn, o *sim.Outcome) {
 		o.Count("skipped:proposer-failed", 1)
 		return
 	}
-	f := w.AddNode(sim.NodeCfg{Name: "full"})
+	// a follower configured with the sequencer's pending-block limit (shared configuration files) converges like any other
+	f := w.AddNode(sim.NodeCfg{Name: "full", MaxPending: uint64(s.Cfg["fmaxpending"])})
 	fw := &followerWorld{w: w, f: f, blocks: blocks, o: o, planted: map[string]bool{}, hDeliv: map[uint64]bool{}, dDeliv: map[uint64]bool{}, id: "C02"}
 	fw.fillP2P()
 	if err := f.StartNode(); err != nil {
@@ -426,7 +427,7 @@ func c02Gen(r *rand.Rand, tier string) *sim.Scn {
 	if r.IntN(4) == 0 {
 		return c02GenNatural(r)
 	}
-	s := &sim.Scn{Cfg: map[string]int64{"final": r.Int64N(3)}}
+	s := &sim.Scn{Cfg: map[string]int64{"final": r.Int64N(3), "fmaxpending": []int64{0, 0, 0, 1, 3}[r.IntN(5)]}}
 	n := 3 + r.IntN(10)
 	if tier == "thorough" && r.IntN(3) == 0 {
 		n = 10 + r.IntN(50)
